@@ -1,15 +1,22 @@
 (** C11 — Mann-Whitney U statistics and p-values are exact for small samples.
     Statements only; proofs are in Proofs/UStat.v, Proofs/UDistSpec.v,
-    Proofs/UDistImpl.v, Proofs/UTest.v.
+    Proofs/UDistImpl.v, Proofs/UTest.v, Proofs/UDistSum.v, Proofs/UDistPrune.v,
+    Proofs/UTestExact.v, Proofs/UDistUntied.v, Proofs/UDistRev.v (reversal symmetry),
+    Proofs/UDistDP.v (loop invariant of UDist.p), Proofs/UTestUntied.v,
+    Proofs/B64Arith.v + Proofs/UTestSigma.v (binary64 sigma_U, classical reals).
 
     Model = golang/perf's internal/stats after hooks/fix_c11_udist_k2.diff,
     fix_c11_utest_greater.diff and fix_c11_utest_twosided_cap.diff.
     Recorded finding (not repaired, the repair needs an edit of a pinned test
-    value): C11_twosided_asymmetric_ties, see C11_twosided_asymmetric_refuted. *)
+    value): C11_twosided_asymmetric_ties, see C11_twosided_asymmetric_refuted;
+    confined to NON-palindromic tie vectors by C11_two_sided_palindrome_is_spec.
+    Recorded finding (candidate repair hooks/fix_c11_utest_samples_equal_large.diff):
+    C11_err_samples_equal_large_refuted (330284 equal values: no ErrSamplesEqual). *)
 From Coq Require Import ZArith List Bool Lia.
 From Perf Require Import Base.B64 Model.UStat Model.UDistSpec Model.UDistImpl Model.UTest.
 From Perf Require Import Proofs.UStat Proofs.UDistSpec Proofs.UDistImpl Proofs.UTest.
 From Perf Require Import Proofs.UDistSum Proofs.UDistPrune Proofs.UTestExact Proofs.UDistUntied.
+From Perf Require Import Proofs.UDistRev Proofs.UDistDP Proofs.UTestUntied Proofs.UTestSigmaSweep Proofs.UTestSigma.
 Import ListNotations.
 Local Open Scope Z_scope.
 
@@ -152,15 +159,101 @@ Proof. exact one_sided_exact_tied. Qed.
 Print Assumptions C11_one_sided_exact_tied.
 
 (** untied distribution: the Mann-Whitney recurrence that UDist.p runs is a counting
-    identity of the specification (c_{n,m}(u) = choices of n out of n+m untied values
-    with U = u). untied_dp_correct _partial: that the model's table organisation
-    ([p_counts]) computes c is a bounded sweep n, m <= 6 (p_counts_agree_bounded) plus the
-    correspondence run; the float64 rounding of the code's scaled form is compared by
-    tolerance only. *)
+    identity of the specification (c_{n,m}(u) = [cuntied n m u] = choices of n out of
+    n+m untied values with U = u). *)
 Theorem C11_mann_whitney_recurrence : forall n m u, 1 <= n -> 1 <= m ->
   cuntied n m u = cuntied (n - 1) m (u - m) + cuntied n (m - 1) u.
 Proof. exact mann_whitney_recurrence. Qed.
 Print Assumptions C11_mann_whitney_recurrence.
+
+(** reversal symmetry: for a palindromic tie vector (in particular without ties) the
+    null distribution is symmetric about n1 n2 / 2 (2U |-> 2 n1 n2 - 2U) *)
+Theorem C11_palindrome_distribution_symmetric : forall t n u,
+  Forall (fun x => 0 <= x) t -> rev t = t ->
+  count_eq t n u = count_eq t n (2 * (n * (zsum t - n)) - u) /\
+  count_ge t n u = count_le t n (2 * (n * (zsum t - n)) - u).
+Proof. exact palindrome_distribution_symmetric. Qed.
+Print Assumptions C11_palindrome_distribution_symmetric.
+
+(** c_{n,m}(u) = c_{n,m}(nm - u) and c_{n,m} = c_{m,n} (the mirrored table cell) *)
+Theorem C11_untied_symmetric : forall n m u, 0 <= n -> 0 <= m -> cuntied n m u = cuntied n m (n * m - u).
+Proof. exact cuntied_sym. Qed.
+Print Assumptions C11_untied_symmetric.
+Theorem C11_untied_swap : forall n m u, 0 <= n -> 0 <= m -> cuntied n m u = cuntied m n u.
+Proof. exact cuntied_swap. Qed.
+Print Assumptions C11_untied_swap.
+
+(** untied_dp_correct: the model's table organisation of UDist.p ([p_counts]: memo rolled
+    over m, cells n = 1..min(N,m) updated in place from the already updated cell n-1
+    and the old cell n, the mirrored cell memo[m-1] on the diagonal, truncation at
+    ulim = min(U, n m) with the old contents kept above) computes exactly the
+    Mann-Whitney counts: every entry, ALL sample sizes, every bound U (loop invariant
+    in Proofs/UDistDP.v; replaces the bounded sweep p_counts_agree_bounded) *)
+Theorem C11_untied_dp_correct : forall n1 n2 U u, 0 <= n1 -> 0 <= n2 -> 0 <= u <= U ->
+  nth (Z.to_nat u) (p_counts n1 n2 U) 0 = cuntied n1 n2 u.
+Proof. exact untied_dp_correct. Qed.
+Print Assumptions C11_untied_dp_correct.
+Theorem C11_untied_dp_slice : forall n1 n2 U, 0 <= n1 -> 0 <= n2 -> 0 <= U ->
+  p_counts n1 n2 U = map (cuntied n1 n2) (zrange 0 U).
+Proof. exact p_counts_spec. Qed.
+Print Assumptions C11_untied_dp_slice.
+
+(** UDist.CDF / UDist.PMF with T == nil (model of the wrappers: range checks, int(2U),
+    floor(U), "sum the smaller tail and flip" included) are the exact fractions
+    count / C(n1+n2, n1) of the untied specification; q = 4U, PMF at an integral U = u *)
+Theorem C11_cdf_untied_exact : forall t n1 n2 q, has_ties t = false -> 0 <= n1 -> 0 <= n2 ->
+  frac_eq (cdf n1 n2 t q) (count_le (ones (n1 + n2)) n1 (q / 2)) (total (ones (n1 + n2)) n1).
+Proof. exact cdf_untied_exact. Qed.
+Print Assumptions C11_cdf_untied_exact.
+Theorem C11_pmf_untied_exact : forall t n1 n2 u, has_ties t = false -> 0 <= n1 -> 0 <= n2 ->
+  frac_eq (pmf n1 n2 t (4 * u)) (count_eq (ones (n1 + n2)) n1 (2 * u)) (total (ones (n1 + n2)) n1).
+Proof. exact pmf_untied_exact. Qed.
+Print Assumptions C11_pmf_untied_exact.
+(** a tie vector without ties is the all-ones vector the wrappers' theorems speak about *)
+Theorem C11_untied_tie_vector : forall t, Forall (fun x => 1 <= x) t -> has_ties t = false -> t = ones (zsum t).
+Proof. exact untied_is_ones. Qed.
+Print Assumptions C11_untied_tie_vector.
+
+(** exactness range of the integer form: for n1 + n2 <= 56 every count, every partial
+    sum and the denominator C(n1+n2, n1) are integers below 2^53, i.e. binary64 numbers,
+    and count / C is one correctly rounded division of exact integers (C(58,29) > 2^53:
+    C11_example_untied). The Go code keeps p = c / C in float64 through the whole
+    recurrence; ITS rounding is compared by tolerance, not proved. *)
+Theorem C11_untied_counts_below_2p53 : forall n m, 0 <= n -> 0 <= m -> n + m <= 56 ->
+  forall u, 0 <= cuntied n m u < 2 ^ 53 /\ 0 <= sumf (cuntied n m) (zrange 0 u) < 2 ^ 53.
+Proof. exact untied_counts_below_2p53. Qed.
+Print Assumptions C11_untied_counts_below_2p53.
+Theorem C11_untied_denominator_below_2p53 : forall n m, 0 <= n -> 0 <= m -> n + m <= 56 -> choose (n + m) n < 2 ^ 53.
+Proof. exact choose_below_2p53. Qed.
+Print Assumptions C11_untied_denominator_below_2p53.
+
+(** one_sided_exact, untied exact path: for all samples without ties the model's
+    Less / Greater p-values are P(U <= u) / P(U >= u) *)
+Theorem C11_one_sided_exact_untied : forall x1 x2,
+  let s := ustat_of x1 x2 in
+  us_hasTies s = false ->
+  pfrac_eq (exact_p s Less) (count_le (us_T s) (us_n1 s) (us_twoU1 s)) (total (us_T s) (us_n1 s))
+  /\ pfrac_eq (exact_p s Greater) (count_ge (us_T s) (us_n1 s) (us_twoU1 s)) (total (us_T s) (us_n1 s)).
+Proof. exact one_sided_exact_untied. Qed.
+Print Assumptions C11_one_sided_exact_untied.
+
+(** two-sided: the code's rule  U1 == U2 ? 1 : min(1, 2 CDF(min(U1, U2)))  EQUALS the
+    property's "twice the smaller one-sided value, capped at 1" whenever the null
+    distribution is symmetric: without ties ... *)
+Theorem C11_two_sided_untied_is_spec : forall x1 x2,
+  let s := ustat_of x1 x2 in
+  us_hasTies s = false ->
+  pfrac_eq (exact_p s Differs) (p_two_num (us_T s) (us_n1 s) (us_twoU1 s)) (total (us_T s) (us_n1 s)).
+Proof. exact two_sided_untied_is_spec. Qed.
+Print Assumptions C11_two_sided_untied_is_spec.
+(** ... and with ties when the tie vector is a palindrome: the recorded finding
+    C11_twosided_asymmetric_ties needs a tie vector that differs from its reverse *)
+Theorem C11_two_sided_palindrome_is_spec : forall x1 x2,
+  let s := ustat_of x1 x2 in
+  us_hasTies s = true -> (2 <= length (us_T s))%nat -> rev (us_T s) = us_T s ->
+  pfrac_eq (exact_p s Differs) (p_two_num (us_T s) (us_n1 s) (us_twoU1 s)) (total (us_T s) (us_n1 s)).
+Proof. exact two_sided_palindrome_is_spec. Qed.
+Print Assumptions C11_two_sided_palindrome_is_spec.
 
 (** the distribution function accumulates the mass function (half-integer steps: u is 2U) *)
 Theorem C11_cdf_accumulates_pmf : forall t n u,
@@ -194,15 +287,74 @@ Theorem C11_err_samples_equal_iff_exact : forall erfc x1 x2 a,
 Proof. exact err_samples_equal_iff_exact. Qed.
 Print Assumptions C11_err_samples_equal_iff_exact.
 
-(** _partial: in the approximate regime the code returns ErrSamplesEqual iff the
-    binary64 sigma is zero; that this happens exactly for all-equal values is a
-    statement about float rounding, checked for N <= 400 (sigma_zero_single_bounded)
-    and by prop_ok on generated large samples, not proved for all N. *)
+(** in the approximate regime the code returns ErrSamplesEqual iff the binary64 sigma_U
+    is zero (kept under its old name; completed by the theorems below) *)
 Theorem C11_err_samples_equal_approx_partial : forall erfc x1 x2 a,
   x1 <> [] -> x2 <> [] -> use_exact (ustat_of x1 x2) = false ->
   (mwu erfc x1 x2 a = RErrSamplesEqual <-> b64_eq (sigma_U (ustat_of x1 x2)) b64_zero = true).
 Proof. exact err_samples_equal_approx. Qed.
 Print Assumptions C11_err_samples_equal_approx_partial.
+
+(** sigma_U in binary64, as coded: sqrt(n1 n2 ((N+1) - t/(N(N-1))) / 12).
+    One run (all pooled values equal, t = N^3 - N): while N^3 - N < 2^53 every operand
+    is an exact integer, the quotient is exactly N + 1, the factor exactly 0, sigma = 0 *)
+Theorem C11_sigma_zero_all_equal : forall n1 n2, 1 <= n1 -> 1 <= n2 ->
+  let N := n1 + n2 in N * N * N - N < 2 ^ 53 ->
+  b64_eq (sigma_of n1 n2 [N]) b64_zero = true.
+Proof. exact sigma_zero_all_equal. Qed.
+Print Assumptions C11_sigma_zero_all_equal.
+(** ... and, by exhaustive evaluation of N = 208064..330283 (Proofs/UTestSigmaSweep.v), up
+    to the last N before the first failure *)
+Theorem C11_sigma_zero_all_equal_to_330283 : forall n1 n2, 1 <= n1 -> 1 <= n2 -> n1 + n2 <= 330283 ->
+  b64_eq (sigma_of n1 n2 [n1 + n2]) b64_zero = true.
+Proof. exact sigma_zero_all_equal_to_330283. Qed.
+Print Assumptions C11_sigma_zero_all_equal_to_330283.
+(** two or more runs: t <= (N-2)(N-1)N, the rounded quotient is at most N - 1, the
+    factor at least 2 and sigma >= 1/4, for every N <= 2^26 (monotonicity of rounding) *)
+Theorem C11_sigma_pos_two_runs : forall n1 n2 T, 1 <= n1 -> 1 <= n2 ->
+  Forall (fun x => 1 <= x) T -> (2 <= length T)%nat -> zsum T = n1 + n2 -> n1 + n2 <= 2 ^ 26 ->
+  b64_eq (sigma_of n1 n2 T) b64_zero = false.
+Proof. exact sigma_pos_two_runs. Qed.
+Print Assumptions C11_sigma_pos_two_runs.
+
+(** errors_iff, approximate regime: ErrSamplesEqual iff all pooled values are equal, for
+    every pooled size up to 330283 (sharp: C11_err_samples_equal_large_refuted) *)
+Theorem C11_err_samples_equal_iff_approx : forall erfc x1 x2 a,
+  x1 <> [] -> x2 <> [] -> use_exact (ustat_of x1 x2) = false ->
+  zlen x1 + zlen x2 <= 330283 ->
+  (mwu erfc x1 x2 a = RErrSamplesEqual <-> exists v, Forall (fun x => x = v) (x1 ++ x2)).
+Proof. exact err_samples_equal_iff_approx. Qed.
+Print Assumptions C11_err_samples_equal_iff_approx.
+(** the direction that survives: samples with two different values are never reported equal *)
+Theorem C11_err_samples_equal_only_if_equal : forall erfc x1 x2 a,
+  x1 <> [] -> x2 <> [] -> use_exact (ustat_of x1 x2) = false ->
+  zlen x1 + zlen x2 <= 2 ^ 26 ->
+  mwu erfc x1 x2 a = RErrSamplesEqual -> exists v, Forall (fun x => x = v) (x1 ++ x2).
+Proof. exact err_samples_equal_only_if_equal. Qed.
+Print Assumptions C11_err_samples_equal_only_if_equal.
+
+(** FINDING (current code): beyond N^3 - N >= 2^53 float64(t) is rounded and the
+    cancellation is not exact any more. 330284 equal values (165142 + 165142): sigma =
+    0.3637.., no error, a p-value comes back; 330292 equal values: the factor is
+    negative, sigma = NaN, p = NaN with a nil error. Confirmed on /repo. *)
+Theorem C11_sigma_all_equal_refuted :
+  b64_eq (sigma_of 165142 165142 [330284]) b64_zero = false /\
+  sigma_of 165142 165142 [330284] = b64_of_bits 0x3FD7470C73522596 /\
+  is_nan_b64 (sigma_of 165146 165146 [330292]) = true.
+Proof. exact sigma_all_equal_refuted. Qed.
+Theorem C11_err_samples_equal_large_refuted :
+  exists x1 x2, x1 <> [] /\ x2 <> [] /\ (exists v, Forall (fun x => x = v) (x1 ++ x2)) /\
+    forall erfc a, mwu erfc x1 x2 a <> RErrSamplesEqual.
+Proof. exact err_samples_equal_large_refuted. Qed.
+Print Assumptions C11_err_samples_equal_large_refuted.
+
+(** with hooks/fix_c11_utest_samples_equal_large.diff (len(T) == 1 tested before the
+    exact/approximate switch) the clause holds in both regimes *)
+Theorem C11_err_samples_equal_iff_repaired : forall erfc x1 x2 a,
+  x1 <> [] -> x2 <> [] -> zlen x1 + zlen x2 <= 2 ^ 26 ->
+  (mwu_repaired erfc x1 x2 a = RErrSamplesEqual <-> exists v, Forall (fun x => x = v) (x1 ++ x2)).
+Proof. exact err_samples_equal_iff_repaired. Qed.
+Print Assumptions C11_err_samples_equal_iff_repaired.
 
 (** ** refuted for the code before the repairs (witnesses of DESIGN section 10) *)
 Theorem C11_k2_refuted : exists t n1 u, umemo_old t n1 u <> count_le t n1 u.
@@ -243,3 +395,22 @@ Proof.
   - repeat constructor; lia.
   - cbn [length]. lia.
 Qed.
+
+(** non-vacuity of the untied / palindromic / approximate-regime hypotheses *)
+Example C11_example_untied :
+  us_hasTies (ustat_of [1; 2; 6] [3; 4; 5; 7]) = false /\ us_twoU1 (ustat_of [1; 2; 6] [3; 4; 5; 7]) = 6 /\
+  pexact_frac (exact_p (ustat_of [1; 2; 6] [3; 4; 5; 7]) Differs) = Some (14, 35) /\
+  p_two_num (ones 7) 3 6 = 14 /\ total (ones 7) 3 = 35 /\
+  p_counts 3 4 5 = [1; 1; 2; 3; 4; 4] /\ cuntied 3 4 5 = 4 /\ cuntied 3 4 7 = 4 /\ cuntied 4 3 5 = 4 /\
+  has_ties [] = false /\ cdf 3 4 [] (4 * 8) = DOneMinus 7 35 /\ count_le (ones 7) 3 16 = 28 /\
+  pmf 3 4 [] (4 * 5) = DFrac 4 35 /\
+  2 ^ 53 < choose 58 29 /\ choose 56 28 < 2 ^ 53 /\
+  (* palindromic ties *)
+  us_hasTies (ustat_of [1; 2] [2; 3]) = true /\ us_T (ustat_of [1; 2] [2; 3]) = [1; 2; 1] /\
+  rev [1; 2; 1] = [1; 2; 1] /\ pexact_frac (exact_p (ustat_of [1; 2] [2; 3]) Differs) = Some (4, 6) /\
+  p_two_num [1; 2; 1] 2 1 = 4 /\ total [1; 2; 1] 2 = 6 /\
+  (* approximate regime *)
+  use_exact (ustat_of (repeat 0 51) [1]) = false /\ zlen (repeat 0 51) + zlen [1] = 52 /\
+  b64_eq (sigma_of 51 1 [51; 1]) b64_zero = false /\ b64_eq (sigma_of 26 26 [52]) b64_zero = true /\
+  2 * 2 * 2 - 2 < 2 ^ 53.
+Proof. vm_compute. repeat split. Qed.
